@@ -183,8 +183,14 @@ func (p *Permission) UnmarshalJSON(data []byte) error {
 			return fmt.Errorf("invalid permission: no %s", name)
 		}
 	}
+	// Members are taken by their exact names: encoding/json matches names
+	// case-insensitively and lets the last match win, so decoding the
+	// whole object would let "Methods" or "CONTRACT" replace them.
 	aux := new(permissionAux)
-	if err := json.Unmarshal(data, aux); err != nil {
+	if err := json.Unmarshal(raw["contract"], &aux.Contract); err != nil {
+		return err
+	}
+	if err := json.Unmarshal(raw["methods"], &aux.Methods); err != nil {
 		return err
 	}
 	p.Contract = aux.Contract
